@@ -23,6 +23,7 @@ pub fn members(names: &[&str], args: &Args, ev: &mut Ev) -> Vec<wgen::Member> {
             "reach" => fam::reach_family(args.tier.g()),
             "leb" => fam::leb_family(args.tier.g()),
             "idshift" => fam::idshift_family(),
+            "minimal" => fam::minimal_family(),
             "ctrl" => fam::ctrl_family(args.tier.g()),
             other => {
                 ev.note(format!("unknown family {}", other));
